@@ -390,6 +390,11 @@ func ruleP5(r *Run) {
 // ---------------------------------------------------------------------------------------
 // P1
 
+type p1aState struct{ took, timedOut, errSet bool }
+
+func (s *p1aState) Key() string   { return fmt.Sprintf("%v|%v|%v", s.took, s.timedOut, s.errSet) }
+func (s *p1aState) Copy() PState { n := *s; return &n }
+
 type p1State struct {
 	acquired int // 0 unknown/not, 1 acquired (err == nil), 2 failed
 	deferRel bool
@@ -541,6 +546,57 @@ func ruleP1(r *Run) {
 		}
 		return true
 	})
+	// path-sensitive: after the send arm was taken no error may be assigned/returned, and after
+	// the Done arm was taken the function must end with an error
+	{
+		type st = p1aState
+		errT := types.Universe.Lookup("error").Type()
+		bad := ""
+		w := &Walk{Info: info}
+		w.Event = func(w *Walk, ps PState, n ast.Node) []PState {
+			s0 := ps.(*st)
+			switch x := n.(type) {
+			case *ast.CommClause:
+				if x.Comm == nil {
+					return nil
+				}
+				if _, ok := x.Comm.(*ast.SendStmt); ok {
+					return []PState{&st{took: true}}
+				}
+				if es, ok := x.Comm.(*ast.ExprStmt); ok && isCtxDoneRecv(info, es.X) {
+					return []PState{&st{timedOut: true}}
+				}
+			case *ast.SendStmt:
+				return []PState{&st{took: true, timedOut: s0.timedOut, errSet: s0.errSet}}
+			case *ast.AssignStmt:
+				for i, l := range x.Lhs {
+					if t := info.TypeOf(l); t != nil && types.Identical(t, errT) {
+						if i < len(x.Rhs) {
+							if id, ok := ast.Unparen(x.Rhs[i]).(*ast.Ident); ok && id.Name == "nil" {
+								continue
+							}
+						}
+						if s0.took && bad == "" {
+							bad = "an error is assigned after the permit was taken (send arm): Acquire reports failure while holding a permit that Handler will never release"
+						}
+						return []PState{&st{took: s0.took, timedOut: s0.timedOut, errSet: true}}
+					}
+				}
+			}
+			return nil
+		}
+		w.Exit = func(w *Walk, ps PState, kind flowKind, at ast.Node) {
+			s0 := ps.(*st)
+			if s0.timedOut && !s0.took && !s0.errSet && bad == "" {
+				bad = "the timed-out path returns without an error"
+			}
+		}
+		w.Run(afd.Body, &st{})
+		if bad != "" {
+			okTimeout = false
+			_ = bad
+		}
+	}
 	r.Check(nSel >= 1 && okTimeout, "timed-out Acquire takes no permit and reports an error", afd.Pos(), "ctx.Done() clause sets the error and sends nothing", "the timeout branch of Acquire takes a permit or reports success: a request that timed out waiting consumes a permit that is never released")
 	// the unconditional send path returns nil only after the send
 	r.Check(sends >= 1, "Acquire takes the permit by a send on the semaphore", afd.Pos(), fmt.Sprintf("%d send(s)", sends), "Acquire no longer sends on the semaphore channel")
